@@ -45,6 +45,7 @@ type Engine struct {
 	subFuns  map[string]bool
 	subCodes map[string]int
 	adtTypes map[string]types.Type
+	lemmaTNames map[string]types.Type
 	useAllocID bool
 	rel      *relRun
 	lastLoad map[ssa.Value]*Loc
